@@ -218,12 +218,12 @@ theorem C15_bad_trait (c : Cfg) (raw : RawItem) (pre post : List RawAttr) (es : 
 
 /-- Instances of `C15_bad_trait`'s premise. -/
 theorem C15_bad_trait_instances (c : Cfg) (kind : ItemKind) :
-    Fails (DeriveTrait.fromMeta c kind (.path ⟨false, [⟨"Foo", false⟩]⟩)) ∧
-    Fails (DeriveTrait.fromMeta c kind (.path ⟨false, [⟨"a", false⟩, ⟨"Clone", false⟩]⟩)) ∧
-    Fails (DeriveTrait.fromMeta c kind (.path ⟨false, [⟨"Clone", true⟩]⟩)) ∧
-    Fails (DeriveTrait.fromMeta c kind (.list ⟨false, [⟨"Clone", false⟩]⟩ true [.path ⟨false, [⟨"x", false⟩]⟩])) ∧
-    Fails (DeriveTrait.fromMeta c kind (.nameValue ⟨false, [⟨"Clone", false⟩]⟩ .other)) ∧
-    Fails (DeriveTrait.fromMeta c .union_ (.path ⟨false, [⟨"Debug", false⟩]⟩)) := by
+    Fails (DeriveTrait.fromMeta c kind (.path ⟨false, [⟨"Foo", false⟩], none⟩)) ∧
+    Fails (DeriveTrait.fromMeta c kind (.path ⟨false, [⟨"a", false⟩, ⟨"Clone", false⟩], none⟩)) ∧
+    Fails (DeriveTrait.fromMeta c kind (.path ⟨false, [⟨"Clone", true⟩], none⟩)) ∧
+    Fails (DeriveTrait.fromMeta c kind (.list ⟨false, [⟨"Clone", false⟩], none⟩ true [.path ⟨false, [⟨"x", false⟩], none⟩])) ∧
+    Fails (DeriveTrait.fromMeta c kind (.nameValue ⟨false, [⟨"Clone", false⟩], none⟩ .other)) ∧
+    Fails (DeriveTrait.fromMeta c .union_ (.path ⟨false, [⟨"Debug", false⟩], none⟩)) := by
   refine ⟨⟨.trait_, rfl⟩, ⟨.trait_, rfl⟩, ⟨.trait_, rfl⟩, ?_, ?_, ⟨.union, rfl⟩⟩
   · cases kind <;> exact ⟨.options "Clone", rfl⟩
   · cases kind <;> exact ⟨.optionSyntax, rfl⟩
@@ -269,17 +269,17 @@ namespace DW
 
 /-- Non-vacuity of `C15_skip_repeated` / `C15_skip_inner_no_fields`: concrete attribute lists meet the premises. -/
 example :
-    let skipP : MPath := ⟨false, [⟨"skip", false⟩]⟩
-    let m1 : Meta := .list skipP true [.path ⟨false, [⟨"Debug", false⟩]⟩]
+    let skipP : MPath := ⟨false, [⟨"skip", false⟩], none⟩
+    let m1 : Meta := .list skipP true [.path ⟨false, [⟨"Debug", false⟩], none⟩]
     let m2 : Meta := .path skipP
     flatMetas [.list [.ofMeta m1] none, .list [.ofMeta m2] none] = some ([] ++ m1 :: ([] ++ m2 :: []))
       ∧ m1.isSkipOpt ∧ m2.isSkipOpt ∧ ((∃ p, m1 = .path p) ∨ (∃ p, m2 = .path p)) := by
   refine ⟨rfl, rfl, rfl, Or.inr ⟨_, rfl⟩⟩
 
 example :
-    let m : Meta := .path ⟨false, [⟨"skip_inner", false⟩]⟩
-    flatMetas [.list [.ofMeta (.path ⟨false, [⟨"default", false⟩]⟩), .comma, .ofMeta m] none]
-      = some ([.path ⟨false, [⟨"default", false⟩]⟩] ++ m :: []) ∧ m.getPath.isIdent "skip_inner" = true :=
+    let m : Meta := .path ⟨false, [⟨"skip_inner", false⟩], none⟩
+    flatMetas [.list [.ofMeta (.path ⟨false, [⟨"default", false⟩], none⟩), .comma, .ofMeta m] none]
+      = some ([.path ⟨false, [⟨"default", false⟩], none⟩] ++ m :: []) ∧ m.getPath.isIdent "skip_inner" = true :=
   ⟨rfl, rfl⟩
 
 end DW
